@@ -9,7 +9,7 @@ meek-prf: 'begin', in-iteration 'Elect: ...', 'tie', pre-exclusion 'defeat', 'en
   * 'Iterate (omega)'  => surplus <= omega (omega recomputed independently from the configuration)
     'Iterate (stable)' => a 'Stable state detected' log precedes it in the round
   * every exclusion other than 'Defeat remaining' follows, in its round, an iterate exit of kind omega / stable /
-    batch and never 'elected'; meek-prf (no iterate action): surplus < omega at the defeat snapshot or the stable
+    batch (never a batch when defeat_batch=none) and never 'elected'; meek-prf (no iterate action): surplus < omega at the defeat snapshot or the stable
     log precedes, and no election happened in that round
 """
 from fractions import Fraction
@@ -179,6 +179,8 @@ class C08(Check):
                     elif kind == 'batch':
                         nontriv = True
                         acc.stats['batch_exits'] += 1
+                        if cfg.get('defeat_batch') == 'none' or rule == 'meek-prf':
+                            viol('batch-despite-none', 'iteration ended to exclude a batch although defeat_batch=none', s)
                     elif kind == 'elected':
                         if not elected_in_round:
                             viol('elected-exit', 'iteration ended "elected" but nobody was elected in the round', s)
